@@ -478,7 +478,7 @@ def regenerate(seed, prop, quarantine=()):
 
 
 TIER_RUNS = {
-    'quick': {'default': 16000},
+    'quick': {'default': 20000},
     'thorough': {'default': 1000000},
 }
 
